@@ -43,6 +43,10 @@ var NumTexts = []string{
 	"123456789012345678901234567890", "0.000001", "0.0000001", "0.00000000001", "0.0001", "0.00001",
 	"1.7976931348623157", "0.12345678901234567", "12345.678", "99999999999999999999999",
 	"0.3", "0.7", "1.1", "2.000000000000001", "0.49999999999999", "4.5", "1234567.5",
+	// where x+0.5 is not exact: the largest double below one half, odd integers between 2^52 and 2^53,
+	// halves just below 2^52
+	"0.49999999999999994", "0.5000000000000001", "4503599627370497", "4503599627370495", "9007199254740991",
+	"2251799813685247.5", "4503599627370495.5", "1.4999999999999998",
 }
 
 var StrPool = []string{
@@ -70,6 +74,7 @@ func SpecialNums() []*Node {
 		Bin("div", Num("0"), Num("0")),         // NaN by IEEE
 		Neg(Num("0.5")), Neg(Num("1.5")), Neg(Num("2.5")), Neg(Num("1")), Neg(Num("0.25")),
 		Neg(Num("1000000000000000000000")), Neg(Num("0.0000001")),
+		Neg(Num("0.49999999999999994")), Neg(Num("4503599627370497")), Neg(Num("9007199254740991")), Neg(Num("2251799813685247.5")),
 	}
 }
 
